@@ -407,6 +407,71 @@ def case_subspace(case):
 
 
 # ------------------------------------------------------------------------------------------
+# composite segments: the vectorised answer at index i is the answer for the unit at index i
+# (the single-object sections above decide the geometry; this section binds arrays to them)
+# ------------------------------------------------------------------------------------------
+def case_composite(case):
+    from geometry_tools import hyperbolic as H
+    n, model, deg, shape = case["n"], case["model"], case["deg"], case["shape"]
+    pairs = case["pairs"]
+    rows = np.array([[_row(a), _row(b)] for a, b in pairs], dtype=float)          # (N, 2, n+1)
+    v, t = [], 1
+    comp = H.Segment(rows.reshape(tuple(shape) + (2, n + 1)).copy())
+    if n == 2:
+        c, r, th = comp.circle_parameters(degrees=deg, model=model)
+    else:
+        c, r = comp.sphere_parameters(model=model)
+        th = None
+    ide = np.asarray(comp.ideal_endpoint_coords("projective"), dtype=float)
+    c = np.asarray(c, dtype=float).reshape(len(pairs), -1)
+    r = np.asarray(r, dtype=float).reshape(len(pairs))
+    ide = ide.reshape(len(pairs), 2, n + 1)
+    if th is not None:
+        th = np.asarray(th, dtype=float).reshape(len(pairs), 2)
+    for i in range(len(pairs)):
+        single = H.Segment(rows[i].copy())
+        t += 1
+        if n == 2:
+            c1, r1, th1 = single.circle_parameters(degrees=deg, model=model)
+        else:
+            c1, r1 = single.sphere_parameters(model=model)
+            th1 = None
+        r1 = float(r1)
+        if not (np.isfinite(r1) and r1 < 1e3):
+            continue                                  # straight-line limit: only the radius class is defined
+        scale = (1.0 + r1) ** 2
+        if not np.max(np.abs(c[i] - np.ravel(c1))) <= 1e-6 * scale or not abs(r[i] - r1) <= 1e-6 * scale:
+            v.append(_V("composite/%s/centre-radius" % model, "Segment array of shape %s, unit %d = %s: centre %s radius %.9g, single object gives %s %.9g"
+                        % (tuple(shape), i, _f(pairs[i]), _f(c[i]), r[i], _f(c1), r1)))
+        if th1 is not None:
+            full = 360.0 if deg else 2 * np.pi
+            d = np.abs((th[i] - np.ravel(th1) + full / 2) % full - full / 2)
+            if not np.max(d) <= (1e-5 * (180 / np.pi if deg else 1.0)) * scale:
+                v.append(_V("composite/%s/angles" % model, "Segment array of shape %s, unit %d = %s: angles %s, single object gives %s"
+                            % (tuple(shape), i, _f(pairs[i]), _f(th[i]), _f(th1))))
+        i1 = np.asarray(single.ideal_endpoint_coords("projective"), dtype=float)
+        if not float(np.max(hyp.proj_sin_err(ide[i], i1))) <= 1e-7:
+            v.append(_V("composite/ideal-endpoints", "Segment array of shape %s, unit %d: ideal endpoints %s vs single %s" % (tuple(shape), i, _f(ide[i]), _f(i1))))
+    return {"v": v, "t": t, "o": "%s|%s|%d|%d" % (model, tuple(shape), n, len(v)), "nt": len(pairs) > 1}
+
+
+def composite_cases(q, seed):
+    """Blocks of consecutive ordered pairs of the lattice, packed as composite Segments of several shapes."""
+    for n in ((2, 3) if q else (2, 3, 4)):
+        P, I = _alphabet(n, True, seed)
+        pts = [list(map(float, x)) for x in P[:8] + I[:4]]
+        allpairs = [[a, b] for a, b in itertools.permutations(pts, 2)]
+        for (size, shape) in ((6, [6]), (6, [2, 3]), (4, [2, 1, 2]), (1, [1])):
+            blocks = [allpairs[i:i + size] for i in range(0, len(allpairs) - size + 1, size)]
+            if q:
+                blocks = blocks[::2]
+            for blk in blocks:
+                for model in MODELS:
+                    for deg in ((True, False) if n == 2 else (False,)):
+                        yield {"n": n, "pairs": blk, "shape": shape, "model": model, "deg": deg}
+
+
+# ------------------------------------------------------------------------------------------
 # enumeration
 # ------------------------------------------------------------------------------------------
 def _alphabet(n, q, seed):
@@ -559,6 +624,10 @@ def run(ctx):
         if want("pairs-H%d" % n):
             cases = list(pair_cases(n, q, seed))
             ctx.product("pairs-H%d" % n, "checks.c14:case_pair", cases, chunk=64, domains=dom)
+    if want("composite"):
+        ctx.product("composite-segments", "checks.c14:case_composite", list(composite_cases(q, seed)), chunk=8,
+                    domains={"n": [2, 3] if q else [2, 3, 4], "shapes": [[6], [2, 3], [2, 1, 2], [1]], "pairs": "consecutive blocks of all ordered pairs of 12 lattice points",
+                             "oracle": "the single-object answer for each unit (itself decided by the sections above)"})
     if want("limits"):
         ctx.product("limits", "checks.c14:case_pair", list(limit_cases(q, seed)), chunk=16,
                     domains={"poincare": "A = 0.5u, B = -0.3u + delta w, delta in {0, 1e-2 .. 1e-5}", "halfspace": "Klein lines through e1 (+ delta u)"})
